@@ -191,17 +191,22 @@ def shared_mutable_state(prog, modules=None):
         if modules is not None and not mname.startswith(tuple(modules)):
             continue
         glob, attrs = {}, {}
+        def bindings(st):
+            """(name, value) pairs of a simple or annotated assignment"""
+            if isinstance(st, ast.Assign):
+                return [(t.id, st.value) for t in st.targets if isinstance(t, ast.Name)]
+            if isinstance(st, ast.AnnAssign) and isinstance(st.target, ast.Name) and st.value is not None:
+                return [(st.target.id, st.value)]
+            return []
         for st in m.tree.body:
-            if isinstance(st, ast.Assign) and _mutable_literal(st.value):
-                for t in st.targets:
-                    if isinstance(t, ast.Name):
-                        glob[t.id] = f"module-level {t.id} = {norm(st.value)[:40]}"
+            for nm, val in bindings(st):
+                if _mutable_literal(val):
+                    glob[nm] = f"module-level {nm} = {norm(val)[:40]}"
             if isinstance(st, ast.ClassDef):
                 for cs in st.body:
-                    if isinstance(cs, ast.Assign) and _mutable_literal(cs.value):
-                        for t in cs.targets:
-                            if isinstance(t, ast.Name):
-                                attrs[t.id] = f"class attribute {st.name}.{t.id} = {norm(cs.value)[:40]}"
+                    for nm, val in bindings(cs):
+                        if _mutable_literal(val):
+                            attrs[nm] = f"class attribute {st.name}.{nm} = {norm(val)[:40]}"
         if not glob and not attrs:
             continue
         for fi in prog.functions.values():
@@ -214,15 +219,24 @@ def shared_mutable_state(prog, modules=None):
             params = {a.arg for a in fi.node.args.posonlyargs + fi.node.args.args + fi.node.args.kwonlyargs}
             declared_global = {x for n in own_nodes(fi.node) if isinstance(n, ast.Global) for x in n.names}
 
+            par = None
+
             def shared_of(e, depth=0):
-                """description of the shared container an expression denotes, or None"""
+                """description of the shared container an expression may denote at this point, or None"""
+                nonlocal par
                 if isinstance(e, ast.Name):
                     if e.id in glob and e.id not in params and (e.id not in assigned or e.id in declared_global):
                         return glob[e.id]
                     if e.id in assigned and depth < 3:
-                        ds = [shared_of(v, depth + 1) for v in assigned[e.id]]
-                        if ds and all(ds):
-                            return ds[0] + f" (through the local name {e.id})"
+                        # the definitions that can reach this use: one of them being the shared object is enough (on that path it is written)
+                        from . import flow
+                        from .core import parents
+                        par = par or parents(fi.node)
+                        reach = [v for v in flow.reaching_values(fi, e.id, e, par) if not isinstance(v, str)]
+                        for v in reach:
+                            d = shared_of(v, depth + 1)
+                            if d:
+                                return d + f" (through the local name {e.id})"
                     return None
                 if isinstance(e, ast.Attribute) and e.attr in attrs and isinstance(e.value, ast.Name):
                     # self.X / cls.X / ClassName.X: the class-level object unless the instance rebinds it (no instance store of X anywhere in the module)
